@@ -179,10 +179,16 @@ func c19One(rep *Report, c *c19Case, cs J) {
 			}
 		case "aac2", "aac5", "aac29":
 			ot := map[string]int{"aac2": 2, "aac5": 5, "aac29": 29}[t.Desc]
-			err = trak.SetAACDescriptor(byte(ot), 24000)
-			a := ascRec{Ot: ot, Sf: 24000, Ch: 2}
+			// every second audio track: a base rate whose doubled (SBR extension) rate is NOT one of the 13 table
+			// frequencies, so that the extension frequency is coded explicitly in the AudioSpecificConfig
+			sf := 24000
+			if i%2 == 1 {
+				sf = 7350
+			}
+			err = trak.SetAACDescriptor(byte(ot), sf)
+			a := ascRec{Ot: ot, Sf: sf, Ch: 2}
 			if ot != 2 {
-				a.Ef, a.Sbr = 48000, true
+				a.Ef, a.Sbr = 2*sf, true
 			}
 			if ot == 29 {
 				a.Ch, a.Ps = 1, true
